@@ -2,7 +2,7 @@
 # tools/confirm_mutant.sh <Cxx> <name>: confirm a sub-agent's mutant in its scratch worktree /tmp/mut-<Cxx>, then keep it under seeded/<name>/
 # (1) existing tests pass with the change (both feature sets) (2) demo fails with the change (3) demo passes without it
 set -u
-P=$1; NAME=$2; D=/tmp/mut-$P
+P=$1; NAME=$2; D=${3:-/tmp/mut-$P}
 cd $D || exit 2
 [ -f MUTANT/patch.diff ] || { echo "no MUTANT/patch.diff"; exit 2; }
 DEMO_CMD=$(cat MUTANT/demo_cmd.txt | grep -v '^#' | grep cargo | head -1)
